@@ -111,6 +111,8 @@ pub enum Expect {
     AsRef { what: String },
     /// C15
     SingletonStruct { what: String, null: bool },
+    /// C15: the slot is rewritten between calls; every call returns what is stored then
+    SingletonSequence { what: String, n: usize },
     SingletonEnum { what: String, value: i128 },
     ExternValue { what: String, address: u64 },
 }
@@ -869,6 +871,27 @@ impl ExecBuilder {
             native_only: true,
             expect: Expect::SingletonStruct { what: format!("{path}::get()"), null },
         });
+        // the memory at the address changes while the program runs: every call reads it anew
+        let order: Vec<usize> = {
+            let mut o = vec![1usize, 2, 0, 1, 0, 2];
+            o.rotate_left(rng.below(6));
+            o
+        };
+        let mut body = format!(
+            "        let __o1 = crate::rt::Obj::new(::std::mem::size_of::<{tname}>().max(1), ::std::mem::align_of::<{tname}>(), 0x3C);\n        let __o2 = crate::rt::Obj::new(::std::mem::size_of::<{tname}>().max(1), ::std::mem::align_of::<{tname}>(), 0x3D);\n        let __ps: [u64; 3] = [0, __o1.addr(), __o2.addr()];\n"
+        );
+        for (k, which) in order.iter().enumerate() {
+            body.push_str(&format!(
+                "        if !crate::rt::data({addr:#x}usize, &__ps[{which}].to_le_bytes()) {{ crate::rt::note(\"unmappable\", \"\"); return; }}\n        crate::rt::val(\"stored{k}\", __ps[{which}]);\n        let __g = unsafe {{ {tname}::get() }};\n        crate::rt::val(\"got{k}\", match __g {{ Some(r) => r as *mut {tname} as usize as u64, None => 0 }});\n"
+            ));
+        }
+        let step = pc.add_step(mps, true, body);
+        exps.push(StepExp {
+            step,
+            case,
+            native_only: true,
+            expect: Expect::SingletonSequence { what: format!("{path}::get() while the slot is rewritten"), n: order.len() },
+        });
     }
 
     #[allow(clippy::too_many_arguments)]
@@ -1016,7 +1039,7 @@ pub fn judge_step(e: &StepExp, log: &RunLog, runtime: &str, bad: &mut Vec<(Strin
         Expect::Call { prop, what, .. } => (*prop, what.clone()),
         Expect::VftableAccessor { what } => ("C06", what.clone()),
         Expect::AsRef { what } => ("C07", what.clone()),
-        Expect::SingletonStruct { what, .. } | Expect::SingletonEnum { what, .. } | Expect::ExternValue { what, .. } => ("C15", what.clone()),
+        Expect::SingletonStruct { what, .. } | Expect::SingletonSequence { what, .. } | Expect::SingletonEnum { what, .. } | Expect::ExternValue { what, .. } => ("C15", what.clone()),
     };
     if let Some((_, why)) = crashed {
         bad.push((format!("{prop}/crash"), format!("[{runtime}] {what}: {why}")));
@@ -1117,6 +1140,17 @@ pub fn judge_step(e: &StepExp, log: &RunLog, runtime: &str, bad: &mut Vec<(Strin
             let got = num(st, "got").unwrap_or(-2);
             if stored != got || (*null && got != 0) {
                 bad.push(("C15/singleton-struct".into(), format!("[{runtime}] {what}: pointer stored at the address {stored:#x}, get() yielded {got:#x}")));
+            }
+        }
+        Expect::SingletonSequence { what, n } => {
+            *stats.entry(format!("{runtime}/C15/accessor_sequences_executed")).or_insert(0) += 1;
+            for k in 0..*n {
+                let stored = num(st, &format!("stored{k}")).unwrap_or(-1);
+                let got = num(st, &format!("got{k}")).unwrap_or(-2);
+                if stored != got {
+                    bad.push(("C15/singleton-struct-stale".into(), format!("[{runtime}] {what}: call {k} of the sequence: the address holds {stored:#x}, get() yielded {got:#x}")));
+                    break;
+                }
             }
         }
         Expect::SingletonEnum { what, .. } => {
